@@ -23,23 +23,27 @@
 use hnv_common::*;
 use std::alloc::{GlobalAlloc, Layout, System};
 use std::net::{IpAddr, Ipv4Addr};
-use std::sync::atomic::{AtomicBool, AtomicI64, AtomicU64, Ordering::Relaxed};
+use std::sync::atomic::{AtomicI64, AtomicU64, Ordering::Relaxed};
 
 struct Counting;
-static ON: AtomicBool = AtomicBool::new(false);
+// counting is per thread (the worker threads of the pool modes must not disturb a measurement): a const-initialised
+// thread-local without destructor is safe to read inside the allocator
+thread_local! { static ON: std::cell::Cell<bool> = const { std::cell::Cell::new(false) }; }
+fn counting() -> bool { ON.try_with(|c| c.get()).unwrap_or(false) }
+fn set_counting(v: bool) { ON.with(|c| c.set(v)); }
 static LIVE: AtomicI64 = AtomicI64::new(0);
 static TOTAL: AtomicU64 = AtomicU64::new(0);
 unsafe impl GlobalAlloc for Counting {
     unsafe fn alloc(&self, l: Layout) -> *mut u8 {
-        if ON.load(Relaxed) { LIVE.fetch_add(l.size() as i64, Relaxed); TOTAL.fetch_add(l.size() as u64, Relaxed); }
+        if counting() { LIVE.fetch_add(l.size() as i64, Relaxed); TOTAL.fetch_add(l.size() as u64, Relaxed); }
         System.alloc(l)
     }
     unsafe fn dealloc(&self, p: *mut u8, l: Layout) {
-        if ON.load(Relaxed) { LIVE.fetch_sub(l.size() as i64, Relaxed); }
+        if counting() { LIVE.fetch_sub(l.size() as i64, Relaxed); }
         System.dealloc(p, l)
     }
     unsafe fn realloc(&self, p: *mut u8, l: Layout, new: usize) -> *mut u8 {
-        if ON.load(Relaxed) { LIVE.fetch_add(new as i64 - l.size() as i64, Relaxed); TOTAL.fetch_add(new as u64, Relaxed); }
+        if counting() { LIVE.fetch_add(new as i64 - l.size() as i64, Relaxed); TOTAL.fetch_add(new as u64, Relaxed); }
         System.realloc(p, l, new)
     }
 }
@@ -98,16 +102,16 @@ fn run_h(cap: usize, items: &[&str]) -> String {
     let mut shadow: Vec<ShadowFlow> = Vec::with_capacity(256);       // insertion order, oldest first
     let procs = HttpProcessors::new();
     LIVE.store(0, Relaxed);
-    ON.store(true, Relaxed);
+    set_counting(true);
     let mut flows: Box<ttl_cache::TtlCache<FlowKey, TcpFlow>> = Box::new(ttl_cache::TtlCache::new(cap));
-    ON.store(false, Relaxed);
+    set_counting(false);
     let mut pkt_index = 0usize;
     for (is_macro, evs) in &parsed {
         let (mut reports, mut max_cost, mut last) = (0u64, 0u64, (String::from("-"), 0u64, 0u64));
         for e in evs {
             write_packet(&mut buf, e);
             let t0 = TOTAL.load(Relaxed);
-            ON.store(true, Relaxed);
+            set_counting(true);
             let kind = {
                 let pkt = Ipv4Packet::new(&buf).unwrap();
                 match process_http_ipv4(&pkt, &mut flows, &procs) {
@@ -115,7 +119,7 @@ fn run_h(cap: usize, items: &[&str]) -> String {
                     Ok(p) => match (p.http_request.is_some(), p.http_response.is_some()) { (false, false) => '-', (true, false) => 'Q', (false, true) => 'R', _ => 'B' },
                 }
             };
-            ON.store(false, Relaxed);
+            set_counting(false);
             let alloc = TOTAL.load(Relaxed) - t0;
             let live = LIVE.load(Relaxed).max(0) as u64;
             // ---- shadow of the flow table (what the packets sent and the reports received imply) ----
@@ -252,6 +256,121 @@ fn run_u(cap: usize, items: &[&str]) -> String {
     out.join(" ")
 }
 
+// ---------------------------------------------------------------- modes P, L, K: the public parallel entry points
+// HuginnNet{Http,Tls,Tcp}::with_config(..) + init_pool(..) with ONE worker: the worker's table is the whole analyzer,
+// so what is reported must follow the capacity rule of the model whatever the queue size is.  One packet is in
+// flight at a time (P, K: the worker answers every analysed packet; L: a sentinel ClientHello closes the run).
+fn ethernet(ip: &[u8]) -> Vec<u8> {
+    let mut f = vec![0x02, 0, 0, 0, 0, 0x02, 0x02, 0, 0, 0, 0, 0x01, 0x08, 0x00];
+    f.extend_from_slice(ip);
+    f
+}
+
+fn run_pool_http(cap: usize, queue: usize, items: &[&str]) -> String {
+    use huginn_net_http::{DispatchResult, HttpAnalysisResult, HuginnNetHttp};
+    let (tx, rx) = std::sync::mpsc::channel::<HttpAnalysisResult>();
+    let mut analyzer = match HuginnNetHttp::with_config(None, cap, 1, queue, 16, 10) { Ok(a) => a, Err(_) => return "ERR".into() };
+    if analyzer.init_pool(tx).is_err() { return "ERR".into(); }
+    let pool = analyzer.worker_pool().expect("pool").clone();
+    let mut buf: Vec<u8> = Vec::with_capacity(70000);
+    let mut out = Vec::new();
+    for t in items {
+        let (is_macro, evs) = parse_item(t);
+        let (mut reports, mut last) = (0u64, String::from("-"));
+        for e in &evs {
+            write_packet(&mut buf, e);
+            let kind = if pool.dispatch(ethernet(&buf)) != DispatchResult::Queued { "D".to_string() } else {
+                match rx.recv_timeout(std::time::Duration::from_secs(20)) {
+                    Err(_) => "T".to_string(),
+                    Ok(r) => match (r.http_request.is_some(), r.http_response.is_some()) { (false, false) => "-", (true, false) => "Q", (false, true) => "R", _ => "B" }.to_string(),
+                }
+            };
+            if kind == "Q" || kind == "R" { reports += 1; }
+            last = kind;
+        }
+        out.push(if is_macro { format!("{}x", reports) } else { last });
+    }
+    pool.shutdown();
+    out.join(" ")
+}
+
+fn run_pool_tls(cap: usize, queue: usize, items: &[&str]) -> String {
+    use huginn_net_tls::{DispatchResult, HuginnNetTls, TlsClientOutput};
+    let (tx, rx) = std::sync::mpsc::channel::<TlsClientOutput>();
+    let mut analyzer = HuginnNetTls::with_config_and_max_connections(1, queue, 16, 10, cap);
+    if analyzer.init_pool(tx).is_err() { return "ERR".into(); }
+    let pool = match analyzer.worker_pool() { Some(p) => p, None => return "ERR".into() };
+    let mut buf: Vec<u8> = Vec::with_capacity(70000);
+    let send = |buf: &Vec<u8>| -> bool {
+        // wait for room instead of counting on a large queue: the queue size must not matter
+        for _ in 0..200000 { if pool.dispatch(ethernet(buf)) == DispatchResult::Queued { return true; } std::thread::yield_now(); }
+        false
+    };
+    for t in items {
+        let (_m, evs) = parse_item(t);
+        for e in &evs { write_packet(&mut buf, e); if !send(&buf) { pool.shutdown(); return "D".into(); } }
+    }
+    // sentinel: a complete ClientHello on a connection of its own is always reported; when it comes back everything before it was analysed
+    let sentinel = Ev { conn: 199, client: true, flags: "PA".into(), seq: 1, pay: client_hello() };
+    write_packet(&mut buf, &sentinel);
+    if !send(&buf) { pool.shutdown(); return "D".into(); }
+    let mut out = Vec::new();
+    loop {
+        match rx.recv_timeout(std::time::Duration::from_secs(20)) {
+            Err(_) => { out.push("T".to_string()); break; }
+            Ok(r) => {
+                let (port, client) = if r.destination.port == 80 { (r.source.port, true) } else { (r.destination.port, false) };
+                let conn = port as u32 - 40000;
+                if conn == 199 { break; }
+                out.push(format!("S{}{}", conn, if client { 'c' } else { 's' }));
+            }
+        }
+    }
+    pool.shutdown();
+    if out.is_empty() { "-".into() } else { out.join(" ") }
+}
+
+fn run_pool_tcp(cap: usize, queue: usize, items: &[&str]) -> String {
+    use huginn_net_tcp::uptime::verif_hooks::set_frozen_clock;
+    use huginn_net_tcp::{DispatchResult, HuginnNetTcp, TcpAnalysisResult};
+    let (tx, rx) = std::sync::mpsc::channel::<TcpAnalysisResult>();
+    let mut analyzer = match HuginnNetTcp::with_config(None, cap, 1, queue, 16, 10) { Ok(a) => a, Err(_) => return "ERR".into() };
+    if analyzer.init_pool(tx).is_err() { return "ERR".into(); }
+    let pool = match analyzer.worker_pool() { Some(p) => p, None => return "ERR".into() };
+    let mut out = Vec::new();
+    let mut clock: u64 = 1_700_000_000_000;
+    for t in items {
+        let (w, _v) = t.split_once(':').unwrap();
+        let (who, dir) = w.split_at(w.len() - 1);
+        let n: u32 = who.parse().unwrap();
+        let client = dir == "c";
+        // the clock advances 1000 ms per packet and TSval follows it at 100 Hz: every comparison with a stored
+        // reference (k packets earlier) sees k*1000 ms and k*100 ticks, a valid 100 Hz clock
+        clock += 1000;
+        set_frozen_clock(Some(clock));
+        let tsval = (clock / 10) as u32;
+        let cip = [10u8, 0, 1, n as u8]; let sip = [10u8, 0, 2, 1]; let cport = (40000 + n) as u16;
+        let (src, dst, sp, dp, fl) = if client { (cip, sip, cport, 80u16, 0x02u8) } else { (sip, cip, 80u16, cport, 0x12u8) };
+        let mut b: Vec<u8> = Vec::with_capacity(52);
+        b.extend_from_slice(&[0x45, 0, 0, 52, 0, 1, 0x40, 0, 64, 6, 0, 0]);
+        b.extend_from_slice(&src); b.extend_from_slice(&dst);
+        b.extend_from_slice(&sp.to_be_bytes()); b.extend_from_slice(&dp.to_be_bytes());
+        b.extend_from_slice(&1000u32.to_be_bytes()); b.extend_from_slice(&[0, 0, 0, 0]);
+        b.extend_from_slice(&[0x80, fl, 0xff, 0xff, 0, 0, 0, 0]);
+        b.extend_from_slice(&[1, 1, 8, 10]); b.extend_from_slice(&tsval.to_be_bytes()); b.extend_from_slice(&[0, 0, 0, 0]);
+        let tok = if pool.dispatch(ethernet(&b)) != DispatchResult::Queued { "D" } else {
+            match rx.recv_timeout(std::time::Duration::from_secs(20)) {
+                Err(_) => "T",
+                Ok(r) => if r.client_uptime.is_some() || r.server_uptime.is_some() { "u" } else { "-" },
+            }
+        };
+        out.push(tok.to_string());
+    }
+    pool.shutdown();
+    set_frozen_clock(None);
+    out.join(" ")
+}
+
 fn run(line: &str) -> String {
     let toks: Vec<&str> = line.split_whitespace().collect();
     let cap: usize = toks[1].parse().unwrap();
@@ -260,6 +379,9 @@ fn run(line: &str) -> String {
         "T" => run_t(cap, &toks[2..]),
         "R" => run_r(&toks[2..]),
         "U" => run_u(cap, &toks[2..]),
+        "P" => run_pool_http(cap, toks[2].parse().unwrap(), &toks[3..]),
+        "L" => run_pool_tls(cap, toks[2].parse().unwrap(), &toks[3..]),
+        "K" => run_pool_tcp(cap, toks[2].parse().unwrap(), &toks[3..]),
         _ => "BADMODE".into(),
     }
 }
@@ -475,6 +597,34 @@ fn gen(r: &mut Rng, tier: &Tier, out: &mut Vec<String>) {
         let cap = *r.pick(&[0usize, 1, 3, 8, 1000]);
         let mut s = format!("U {}", cap);
         for _ in 0..r.range(1, 60) { s.push_str(&format!(" {}{}:{}", r.range(1, 20), if r.chance(1, 2) { "c" } else { "s" }, 12345)); }
+        out.push(s);
+    }
+    // ---------------- P, L, K: capacity through the public with_config + init_pool path (one worker) ----------------
+    // queue size != capacity in both directions: tiny capacity / large queue, and large capacity / tiny queue
+    let req1 = b"GET /index.html HTTP/1.1\r\nHost: example.com\r\nAccept: */*\r\n\r\n";
+    let resp1 = b"HTTP/1.1 200 OK\r\nServer: nginx\r\nContent-Length: 2\r\n\r\nok";
+    for i in 0..tier.scale(36, 240) {
+        let (cap, queue): (usize, usize) = match i % 6 { 0 => (1, 64), 1 => (2, 64), 2 => (3, 256), 3 => (1000, 1), 4 => (64, 2), _ => (*r.pick(&[1usize, 2, 5, 40]), *r.pick(&[3usize, 7, 100])) };
+        let nconn = r.range(3, 40) as u32;
+        // HTTP: every connection opens with a SYN, then each sends a complete request (and gets a response)
+        let mut s = format!("P {} {}", cap, queue);
+        for c in 1..=nconn { s.push_str(&format!(" {}c:S:{}:-", c, 1000 + c)); }
+        let mut order: Vec<u32> = (1..=nconn).collect(); if r.chance(1, 2) { r.shuffle(&mut order); }
+        for &c in &order {
+            s.push_str(&format!(" {}c:PA:{}:{}", c, 1001 + c, hex(req1)));
+            if r.chance(1, 2) { s.push_str(&format!(" {}s:SA:7:- {}s:PA:8:{}", c, c, hex(resp1))); }
+        }
+        out.push(s);
+        // TLS: every connection sends the first half of a ClientHello, then each sends the second half
+        let half = ch.len() / 2;
+        let mut s = format!("L {} {}", cap, queue);
+        for c in 1..=nconn { s.push_str(&format!(" {}c:PA:1:{}", c, hex(&ch[..half]))); }
+        for &c in &order { s.push_str(&format!(" {}c:PA:{}:{}", c, 1 + half, hex(&ch[half..]))); }
+        out.push(s);
+        // TCP: every connection sends a timestamped SYN, then each sends another one
+        let mut s = format!("K {} {}", cap, queue);
+        for c in 1..=nconn { s.push_str(&format!(" {}c:0", c)); }
+        for &c in &order { s.push_str(&format!(" {}c:0", c)); if r.chance(1, 3) { s.push_str(&format!(" {}s:0 {}s:0", c, c)); } }
         out.push(s);
     }
     // spread the long traces over the shards of the runner
